@@ -21,7 +21,7 @@ RULE = ("Half of the cases draw a component (12 classes, generated parameters) a
         "pair whose parameters differ. Distinct = canonical JSON.")
 BUDGET = {"quick": (16, 250), "thorough": (16, 6000)}
 ESSENTIAL = ["port:csr_target", "port:wb_target", "port:wb_initiator_out", "sig:csr", "sig:element",
-             "sig:fieldport", "sig:wb", "sig:source", "sig:pin", "pair_equal", "pair_differs"]
+             "sig:fieldport", "sig:wb", "sig:source", "sig:pin", "pair_equal", "pair_differs", "mixed_feature_spelling", "width>256"]
 ASSUMPTIONS = [
     "only same-class signature comparisons are asserted",
     "FieldPort signatures are equal when Shape.cast() of their shapes are equal (as the docstring says)",
@@ -33,15 +33,17 @@ FACC = ["r", "w", "rw", "nc"]
 
 def _sig_params(cls):
     if cls == "csr":
-        return st.tuples(st.integers(1, 12), st.sampled_from([1, 2, 3, 8, 8, 16, 32])).map(list)
+        return st.tuples(st.one_of(st.integers(1, 12), st.sampled_from([257, 300])),
+                         st.sampled_from([1, 2, 3, 8, 8, 16, 32, 257, 300])).map(list)
     if cls == "element":
-        return st.tuples(st.integers(0, 12), st.sampled_from(ACC), st.booleans()).map(list)
+        return st.tuples(st.one_of(st.integers(0, 12), st.sampled_from([256, 257, 300, 320, 1000])),
+                         st.sampled_from(ACC), st.booleans()).map(list)
     if cls == "fieldport":
         return st.tuples(gens.shape_strategy(True, 4), st.sampled_from(FACC), st.booleans()).map(list)
     if cls == "wb":
         return st.tuples(st.integers(0, 5), st.sampled_from([8, 16, 32, 64]),
                          st.sampled_from([None, 8, 16, 32, 64]), gens.wb_features(),
-                         st.booleans()).map(list)
+                         st.sampled_from([False, True, "mixed", "mixed"])).map(list)
     if cls == "source":
         return st.tuples(st.sampled_from(["level", "rise", "fall"]), st.booleans()).map(list)
     return st.just([])
@@ -72,13 +74,17 @@ def strategy(tier):
 
 # ------------------------------------------------------------------------------------------
 
+stats_mixed = [False]
+
+
 def _make_sig(cls, p):
     """Returns (signature or None if params invalid, defining-parameter key)."""
+    fresh = lambda v: int(str(v))       # a new int object (CPython only shares small ints)
     if cls == "csr":
-        return csr.Signature(addr_width=p[0], data_width=p[1]), (p[0], p[1])
+        return csr.Signature(addr_width=fresh(p[0]), data_width=fresh(p[1])), (p[0], p[1])
     if cls == "element":
         acc = csr.Element.Access(p[1]) if p[2] else p[1]
-        return csr.Element.Signature(p[0], acc), (p[0], p[1])
+        return csr.Element.Signature(fresh(p[0]), acc), (p[0], p[1])
     if cls == "fieldport":
         acc = csr.FieldPort.Access(p[1]) if p[2] else p[1]
         shp = gens.shape_of(p[0])
@@ -88,7 +94,11 @@ def _make_sig(cls, p):
         aw, dw, g, feat, as_enum = p
         if g is not None and g > dw:
             g = dw
-        f = [wishbone.Feature(x) for x in feat] if as_enum else list(feat)
+        if as_enum == "mixed":
+            f = [wishbone.Feature(x) if k % 2 == 0 else x for k, x in enumerate(feat)]
+            stats_mixed[0] = len(feat) >= 2
+        else:
+            f = [wishbone.Feature(x) for x in feat] if as_enum else list(feat)
         kw = {} if g is None else {"granularity": g}
         return (wishbone.Signature(addr_width=aw, data_width=dw, features=f, **kw),
                 (aw, dw, g if g is not None else dw, tuple(sorted(feat))))
@@ -134,6 +144,9 @@ def _check_sig(spec, stats):
     sb, kb = _make_sig(cls, spec["b"])
     same = ka == kb
     stats.label("pair_equal" if same else "pair_differs")
+    stats.label("mixed_feature_spelling", stats_mixed[0])
+    stats_mixed[0] = False
+    stats.label("width>256", cls in ("csr", "element") and max(spec["a"][0], spec["b"][0]) > 256)
     for x, y, kx, ky in ((sa, sb, ka, kb), (sb, sa, kb, ka)):
         got = (x == y)
         if bool(got) != same:
